@@ -6,7 +6,7 @@ from checks import usage_fullstack
 
 MANIFEST = dict(
     text="Kernel-checked, PFCP layer: the usage-report IE built for a report carries URR id, UR-SEQN, the trigger (24 bits), start/end time unless START/STOPT/MACAR, the volume measurement iff VOLUM with flags TOVOL|ULVOL|DLVOL (+packet counts iff MNOP) and the six counters UNCHANGED for all values, the duration iff DURAT (mk_usage_ie_fields/volume); a report for a live session yields exactly one Session Report Request to the node object owning the session with the peer's SEID (serve_report_route); reports for a non-live SEID change nothing; unknown URRs in a batch are skipped without disturbing the others (emit_skips_unknown, emit_false_ies). Kernel-checked, kernel side (model/UsageDec.v): the attribute tree of a gtp5g usage report, go-gtp5gnl's decoder (clauses pinned to the library source by T-gen) and go-upf's five conversion sites (buffnetlink.ServeMsg, Gtp5g.UpdateURR / RemoveURR / queryURR / queryMultiURR - the model INTERPRETS the field tables T-gen extracts from their loops): for ALL 32-bit ids and trigger words, ALL 64-bit counters and time stamps, ALL presence masks and every site, decoding + converting the tree of a report yields exactly that report's fields (no truncation, no swapped counter, nanosecond times preserved; C10_kernel_report_converted, C10_kernel_sites_agree), a REPORT multicast for any mixture of sessions hands each SEID exactly its own reports (C10_kernel_mcast_groups), and composed with mk_usage_ie the IE carries the kernel's values selected by the URR's method / MNOP (C10_kernel_report_ie). Tie: differential run with scripted reports on ModelDP and field-by-field monitor on the decoded IEs; FULL-STACK phase (real PfcpServer + real Gtp5g over the simulated kernel, fake SMF sockets): REPORT multicasts with 1..9 reports for several sessions of several nodes incl. unknown sessions (also live SEID + 2^32) and unknown URRs, scripted replies to Remove / Update / Query URR and to session deletion, injected periodic ticks through the real periodic server and queryMultiURR, counters at 0 / 1 / 2^32 / 2^63 / 2^64-1 / random, every single-cause trigger, all method / MNOP combinations - monitored end to end at the SMF sockets against what the kernel produced; driver-level phase: the five sites' report.USAReport values compared with the kernel's values (Python) and, inside Coq, with model/UsageDec.v run on the bytes the kernel sent.",
-    note="Partial: go-pfcp's IE encoders and go-gtp5gnl/go-nl are modelled, not verified; the gtp5g kernel module is replaced by SimKernel (its report layout is the one go-gtp5gnl decodes; the meaning of the trigger word per message kind is an interface assumption stated in checks/usage_fullstack.py). Observations: go-gtp5gnl does not decode UR_QUERY_URR_REFERENCE (QueryUrrRef is always 0; not sent to the SMF) and its decodeVolumeMeasurement stops at the first unknown attribute (a UR_VOLUME_MEASUREMENT_FLAGS attribute placed first would zero all counters; gtp5g and SimKernel do not send one). A SessReport mixing buffer and usage items (never produced by go-upf's own producers) loses the usage items when a buffer item lacks NOCP. ",
+    note="Partial: go-pfcp's IE encoders and go-gtp5gnl/go-nl are modelled, not verified; the gtp5g kernel module is replaced by SimKernel (its report layout is the one go-gtp5gnl decodes; the meaning of the trigger word per message kind is an interface assumption stated in checks/usage_fullstack.py). Observations: go-gtp5gnl does not decode UR_QUERY_URR_REFERENCE (QueryUrrRef is always 0; not sent to the SMF) and its decodeVolumeMeasurement stops at the first unknown attribute (a UR_VOLUME_MEASUREMENT_FLAGS attribute placed first would zero all counters; gtp5g and SimKernel do not send one). When every report of a multicast group for a live session names an unknown URR, the reports are dropped but a Session Report Request with Report Type USAR and no Usage Report IE is still sent to the SMF (tolerated by the monitor, counted in the evidence). A SessReport mixing buffer and usage items (never produced by go-upf's own producers) loses the usage items when a buffer item lacks NOCP. ",
     technique="Coq lemmas on the emission / queue / reference-count functions and on the kernel-report decoder/conversion (T-gen interpreted tables) + differential run + trace monitor + full-stack run over the simulated kernel",
     design='4/C10')
 
